@@ -173,9 +173,17 @@ func MkCase(prop, kind string, idx int, seed uint64, params any) Case {
 	return c
 }
 
+// BeforeCase, when set, is called before every case in the child; the returned function runs after it.
+var BeforeCase func(c *Case) func(o *Outcome)
+
 // RunCaseInProcess runs one case with panic containment; used by the child.
 func RunCaseInProcess(p *Property, c *Case) (o Outcome) {
 	o = Outcome{CaseID: c.ID, Kind: c.Kind, Verdict: Held}
+	if BeforeCase != nil {
+		if after := BeforeCase(c); after != nil {
+			defer func() { after(&o) }()
+		}
+	}
 	fn := p.Kinds[c.Kind]
 	if fn == nil {
 		o.Verdict = Inconclusive
